@@ -415,6 +415,10 @@ def reuse_scenarios(draw):
         for r in sc["reads"]:
             if src.bool(0.8):
                 r["tags"] = {"RG": src.choice(["gA", "gB", "grp C"])}
+    # what the saving run derives from the BAM file itself must be restored from the saves as well
+    for i in range(src.choice([0, 0, 1, 3])):
+        sc["reads"].append(S.unmapped_read("u%d" % i))
+    sc["restart_with_bam"] = src.bool(0.3)
     sc["opts"] = ["--data_type", src.choice(["nanopore", "pacbio_ccs"]), "--no_gzip", "--threads",
                   str(src.choice([1, 2]))]
     if grouped:
@@ -440,6 +444,8 @@ def eval_reuse(case, ctx):
         out2 = os.path.join(res.dir, "out2")
         argv = ["--reference", res.paths["fasta"], "-o", out2, "--genedb", res.paths["gtf"], "--complete_genedb",
                 "--read_assignments", save] + list(sc["opts"])
+        if sc.get("restart_with_bam"):
+            argv += ["--bam"] + res.paths["bams"]
         from vlib import run
         ctx.pipeline_runs += 1
         code = run.run_fork(argv, os.path.join(res.dir, "home2"), os.path.join(res.dir, "out2.log"))
@@ -449,16 +455,18 @@ def eval_reuse(case, ctx):
                           {"exit": code, "log": r2.log_tail(12)}, case)
             return
         f1 = parse.sample_files(res.out, "OUT")
-        f2 = parse.sample_files(out2, "OUT0")
+        # a saves-only restart names the experiment OUT0, a restart that is given the BAM files again OUT
+        p2 = "OUT0" if os.path.isdir(os.path.join(out2, "OUT0")) else "OUT"
+        f2 = parse.sample_files(out2, p2)
         names1 = set(n[len("OUT."):] for n in f1)
-        names2 = set(n[len("OUT0."):] for n in f2)
+        names2 = set(n[len(p2) + 1:] for n in f2)
         if names1 != names2:
             ctx.violation("C15:reuse-run-file-set-differs", {"only_first": sorted(names1 - names2),
                                                              "only_reuse": sorted(names2 - names1)}, case)
         novel = 0
         for n in sorted(names1 & names2):
             a = [l.replace("OUT0", "OUT") for l in parse.strip_header(f1["OUT." + n])]
-            b = [l.replace("OUT0", "OUT") for l in parse.strip_header(f2["OUT0." + n])]
+            b = [l.replace("OUT0", "OUT") for l in parse.strip_header(f2[p2 + "." + n])]
             if n == "transcript_models.gtf":
                 novel = sum(1 for l in a if "\ttranscript\t" in l and ("nic\"" in l))
             if a != b:
